@@ -57,7 +57,11 @@ def frames(e):
             fmt = b[:-3]
             break
     site = "%s:%s" % (os.path.basename(fr[-1].filename), fr[-1].name) if fr else "?"
-    return {"fmt": fmt, "site": site}
+    # for a timeout the innermost frame is wherever the timer fired: name the loop instead, i.e. the deepest
+    # function of the format's own module on the stack
+    own = [f for f in fr if os.path.basename(f.filename)[:-3] == fmt]
+    loop = "%s:%s" % (os.path.basename(own[-1].filename), own[-1].name) if own else site
+    return {"fmt": fmt, "site": site, "loop": loop}
 
 
 def crafted():
@@ -100,7 +104,7 @@ def build_corpus(r, quick):
     for k, d, e in crafted():
         C.append((k, d, e))
     # random data, some with a magic in front
-    for _ in range(150 if quick else 4000):
+    for _ in range(500 if quick else 4000):
         n = r.choice([1, 2, 4, 16, 20, 28, 32, 52, 64, 100, 300, 1000])
         d = bytes(r.getrandbits(8) for _ in range(n))
         m = r.random()
@@ -119,17 +123,17 @@ def build_corpus(r, quick):
         C.append(("sample:" + kind, b, exp))
         n = len(b)
         if quick:
-            cuts = sorted(set(list(range(0, min(n, 72))) + [r.randrange(n) for _ in range(14)]))
+            cuts = sorted(set(list(range(0, min(n, 140))) + [r.randrange(n) for _ in range(40)]))
             if n > 20000:
                 cuts = cuts[::3]
         else:
             cuts = sorted(set(list(range(0, min(n, 2048))) + list(range(2048, n, max(1, n // 600))) + [r.randrange(n) for _ in range(300)]))
         for c in cuts:
             C.append(("trunc:" + kind, b[:c], None))
-        for _ in range(12 if quick else 400):
+        for _ in range(40 if quick else 400):
             C.append(("corrupt:" + kind, G.corrupt_bytes(r, b), None))
     # synthesised ELF: valid, truncated, corrupted (the fully modelled format)
-    for i in range(120 if quick else 2500):
+    for i in range(300 if quick else 2500):
         q = G.pick_quirks(r)
         x64, be = [(False, False), (False, True), (True, False), (True, True)][i % 4]
         b, meta = G.synth_elf(r, x64=x64, be=be, quirks=q)
@@ -139,7 +143,7 @@ def build_corpus(r, quick):
         for _ in range(3 if quick else 8):
             C.append(("synth-elf-corrupt", G.corrupt_bytes(r, b, region=len(b)), None))
     # HEX / SREC streams
-    for _ in range(80 if quick else 2000):
+    for _ in range(200 if quick else 2000):
         recs = G.gen_hex_records(r)
         d = G.hex_stream(r, recs)
         C.append(("hex", d, "HEX"))
@@ -185,6 +189,13 @@ def main(tier):
     quick = tier == "quick"
     r = rng("C20")
     broken = ck.build_and_audit(["Amoco.Props.C20", "drv_struct"])
+    if tier != "quick":
+        # independent kernel re-check of the compiled property modules
+        import subprocess
+        p = subprocess.run(["lake", "env", "leanchecker"] + ["Amoco.Props.C20", "Amoco.Proofs.Fmt"], cwd=LEAN, stdout=subprocess.PIPE, stderr=subprocess.STDOUT, text=True)
+        ck.oblige("leanchecker " + " ".join(["Amoco.Props.C20", "Amoco.Proofs.Fmt"]), p.returncode == 0, p.stdout[-1500:])
+        if p.returncode != 0:
+            broken.append("leanchecker failed: " + p.stdout[-1500:])
     corr = []
     slow = []
     if os.path.exists(os.path.join(LEAN, ".lake", "build", "bin", "drv_struct")):
@@ -208,8 +219,8 @@ def main(tier):
             case = {"kind": kind, "data": data.hex() if len(data) <= 65536 else data[:65536].hex() + "...", "len": len(data)}
             # ---- property oracle -----------------------------------------------------------------
             if "exn" in real:
-                sig = "C20:%s:%s:%s" % (real["fmt"], real["exn"], real["site"])
-                what = "read_program does not come back within %.0f s (in %s)" % (TIME_LIMIT, real["site"]) if real["exn"] == "timeout" else \
+                sig = "C20:%s:%s:%s" % (real["fmt"], real["exn"], real["loop"] if real["exn"] == "timeout" else real["site"])
+                what = "read_program does not come back within %.0f s (in %s)" % (TIME_LIMIT, real["loop"]) if real["exn"] == "timeout" else \
                        "%s escapes read_program (raised in %s while trying %s)" % (real["exn"], real["site"], real["fmt"])
                 ck.report(sig, what, "oracle", "Amoco.Fmt.Props20.read_program_total", case=case, real=real, model=mod,
                           expected="a format object or the raw fallback")
